@@ -437,7 +437,7 @@ func init() {
 		Covers:  []string{"C02.end", "C02.held", "C02.relay.accepted", "C02.relay.rejected", "C02.ind.end"},
 		Bounds:  "encode->decode of every encodable service type (connect, connection-state, disconnect req/res, tunnelling req/ack, routing indication, search/description req/res) x every cEMI kind (L_Data req/con/ind with application and control units, L_Raw req/con/ind, L_Busmon.ind, unsupported code); all field values symbolic; quick: info length {0,1,2,255}, payload {1,2,15,16,254}, raw {0,1,5}, families {0,1,2}, name length {0,1,29}; thorough: every info length 0..255, payload 1..254, raw 0..40, families 0..20, names 0..29; a decoded telegram of every cEMI kind held while the buffer is overwritten and a second telegram of the same kind is decoded; plus decode -> re-encode -> decode of fully symbolic byte strings (see outside_bounds for the lengths)",
 		Outside: "decode->re-encode->decode: every byte string of length 6..24 (thorough ..48) under each service identifier, description responses of 60..66 bytes with a device-information DIB first, search responses of 68..74 bytes; longer strings; lengths not enumerated in the quick tier of the encode->decode direction",
-		Assume:  []string{"validity predicate: first payload byte < 64, unnumbered units carry sequence 0, hardware address 6 bytes, friendly name of non-NUL Latin-1 characters, DIB type octets 1 and 2", "x/text ISO-8859-1 codec replaced by the built-in byte<->rune map"},
+		Assume:  []string{"validity predicate: first payload byte < 64, unnumbered units carry sequence 0, hardware address 6 bytes, friendly name of non-NUL Latin-1 characters, DIB type octets 1 and 2", "x/text single-byte character maps (charmap.*) replaced by a built-in byte<->rune map built from the map's own table in the host's copy of x/text v0.14.0 (ISO 8859-1 on the current tree)"},
 	})
 
 	c15 := func(thorough bool) []Inst {
@@ -837,7 +837,7 @@ func init() {
 		Covers:   []string{"C13.end", "C13.cap.end", "C02.ind.end", "C13.quota.end", "C13.quota.transmission_after_busy", "C13.quotalost.end", "C13.quotalost.repetition_after_busy"},
 		Bounds:   "real serve goroutine and 1..2 (thorough 3) sender goroutines x 1..2 messages, 0..2 busy indications handed in at every point of the interleaving (context bound 2..3), pause in {0,5,20} ms, wait in {0,10,30,60,100,500} ms on the virtual clock (lower-bound semantics: goroutines take no time, timers fire exactly at their deadline); the 50 ms cap and the resume obligation with a fully symbolic 16-bit wait time, control word and random part; the per-goroutine quota (every transmission between the instant the indication is taken in and the instant the server goroutine owns the send lock belongs to a Send call entered before, at most one per goroutine; silence for min(wait, 50 ms) afterwards) with 2 (thorough 3) senders x 1..2 messages, 1..2 indications, wait time concrete or fully symbolic (16 bits), the order of arrival at the lock being part of the explored interleaving; the same quota for the goroutine that repeats 3..4 lost telegrams when a busy indication meets the repetitions at every point of the interleaving",
 		Outside:  "8 senders and bursts of 200; the clause 'at most one further transmission per goroutine already inside Send' is decided under FIFO hand-off of sync.Mutex only (what the runtime guarantees once a waiter has waited 1 ms, starvation mode); with barging allowed (normal mode, first millisecond) a goroutine that re-enters Send can overtake the waiting server goroutine - HarnessC13Quota with a sixth argument shows that counterexample - so the clause cannot hold for any implementation on a plain mutex and is not claimed there; all other obligations use the weakest mutex contract (any waiter or newcomer may win)",
-		Assume:   []string{"sync.Mutex: any waiter or newcomer may win an unlocked mutex (all obligations but the quota)", "HarnessC13Quota only: a free sync.Mutex goes to the goroutine that arrived at Lock first (FIFO hand-off, starvation mode)", "time.AfterFunc/Sleep are engine primitives on the virtual clock", "math/rand.Intn/Int63n/Int31n: an arbitrary value in [0, n)"},
+		Assume:   []string{"sync.Mutex: any waiter or newcomer may win an unlocked mutex (all obligations but the quota)", "HarnessC13Quota / HarnessC13QuotaLost only: a free sync.Mutex goes to the goroutine that arrived at Lock first (FIFO hand-off, starvation mode)", "time.AfterFunc/Sleep are engine primitives on the virtual clock", "math/rand.Intn/Int63n/Int31n: an arbitrary value in [0, n)"},
 	})
 
 	c09 := func(thorough bool) []Inst {
